@@ -482,6 +482,19 @@ def run_case(chk, stream, case):
         return fails
     incoming = cls.__name__ in chk.incoming
     chk.hit("scope:" + ("incoming" if incoming else "outgoing-only"))
+    # the entity CARRIES the fields: reading it (printing it, as the demos and the logger layer do) and serialising it again gives the same stanza
+    try:
+        str(ent)
+    except Exception:
+        chk.hit("str:raises")
+    try:
+        s3 = ent.toProtocolTreeNode()
+        d3 = first_diff(s2, s3)
+    except Exception as e:
+        d3 = ("second-serialisation-raises", "%s: %s" % (type(e).__name__, str(e)[:100]))
+    if d3:
+        fails.append(oracle("C09:%s:read-once:%s" % (name.split("#")[0], d3[0]), "%s: after the entity was printed, serialising it a second time gives a different stanza: %s" % (what, d3[1])))
+        return fails
     d = first_diff(s, s2) if incoming else None
     deleted = set(m[2] for m in case["muts"] if m[0] == "del")
     if deleted and any(v is None for _p, nn in walk(s2) for v in nn.attributes.values()):
